@@ -42,7 +42,10 @@ Shapes == [
   aliasoo  |-> << C(<<"s1">>), Sk(<<>>, <<>>, <<"o1">>, <<>>, TRUE), Sk(<<"s2">>, <<>>, <<"o2">>, <<>>, FALSE) >>,
   valid    |-> << C(<<"s1">>), Sk(<<"s2">>, <<>>, <<>>, <<"o1">>, FALSE) >>,
   validrev |-> << Sk(<<"s1">>, <<>>, <<>>, <<"o2">>, FALSE), C(<<"o1">>) >>,
-  validch  |-> << C(<<"s1">>), Sk(<<"o1">>, <<>>, <<>>, <<"o3">>, FALSE), C(<<"s2">>) >>
+  validch  |-> << C(<<"s1">>), Sk(<<"o1">>, <<>>, <<>>, <<"o3">>, FALSE), C(<<"s2">>) >>,
+  wide4    |-> << C(<<"s1">>), C(<<"s1">>), C(<<"s2">>), C(<<"s2">>) >>,
+  widejoin |-> << C(<<"s1">>), C(<<"s1">>), C(<<"s2">>), C(<<"o1", "o2", "o3">>) >>,
+  widephony |-> << C(<<"s1">>), C(<<"s2">>), Sk(<<"o1", "o2">>, <<>>, <<>>, <<>>, TRUE), C(<<"o3">>), C(<<"s1">>) >>
 ]
 ShapeNames == DOMAIN Shapes
 
@@ -68,6 +71,7 @@ Mk(i, sk, pr) ==
             [] pr = "depfile" -> [base EXCEPT !.deps = "depfile", !.hdrs = <<hsrc>>]
             [] pr = "gcc"     -> [base EXCEPT !.deps = "gcc", !.hdrs = <<hsrc>>]
             [] pr = "msvc"    -> [base EXCEPT !.deps = "msvc", !.hdrs = <<hsrc>>]
+            [] pr = "badrsp"  -> [base EXCEPT !.rsp = TRUE, !.badrspdir = TRUE]
             [] pr = "restatgcc" -> [base EXCEPT !.deps = "gcc", !.hdrs = <<hsrc>>, !.restat = TRUE]
             \* header generated by statement 1, with the order-only path the manual prescribes
             [] pr = "gccgen"  -> IF i > 1 /\ "o1" \notin ins
@@ -220,6 +224,49 @@ FamRand(K, CH) ==
           \cup {Scn(gr, <<Build(Roots(gr), 2, 1), c, Build(Roots(gr), 3, 1), Build(Roots(gr), 1, 1)>>) : c \in Pick(CH, Changes(gr))} :
           gr \in RandGraphs(CoreProfiles, K) }
 
+(***************************************************************************)
+(* Pools, jobserver, interrupts, crashes (C06, C07).                        *)
+(***************************************************************************)
+PoolDecls == <<[name |-> "p1", depth |-> 1], [name |-> "p2", depth |-> 2]>>
+PoolNames == {"", "p1", "p2", "console"}
+WithPools(gr, pa) == [gr EXCEPT !.pools = PoolDecls,
+                                !.stmts = [i \in DOMAIN gr.stmts |-> IF gr.stmts[i].phony THEN gr.stmts[i] ELSE [gr.stmts[i] EXCEPT !.pool = pa[i]]]]
+BX(targets, j, k, extra) == extra @@ Build(targets, j, k)
+PoolShapes == {"wide4", "widejoin", "widephony", "fanout", "fanin", "diamond", "group", "alias", "chain3", "indep"}
+PoolGraphs(profs, K) ==
+  UNION { UNION { {WithPools(gr, pa) : pa \in RandomSubset(2, [1..Len(gr.stmts) -> PoolNames])} : gr \in GraphsS(sh, profs, K) } : sh \in PoolShapes }
+
+FamPools(K, CH) ==
+  UNION { {Scn(gr, <<BX(Roots(gr), jk[1], jk[2], [fail |-> f])>>) :
+              jk \in {1, 2, 3} \X {1, 0}, f \in {<<>>} \cup Pick(1, {FailRec(S, 1, FALSE) : S \in FailSets(gr)})} :
+          gr \in PoolGraphs({"plain", "restat", "two"}, K) }
+
+\* jobserver: tok tokens in the FIFO (plus the implicit one); start failures (rspfile in a directory that cannot be made)
+FamJobs(K, CH) ==
+  UNION { {Scn(gr, <<BX(Roots(gr), 4, k, [fail |-> f, tok |-> tok])>>) :
+              k \in {1, 0}, tok \in {0, 1, 2}, f \in {<<>>} \cup Pick(1, {FailRec(S, 1, FALSE) : S \in FailSets(gr)})} :
+          gr \in PoolGraphs({"plain", "restat", "badrsp"}, K) }
+
+\* interrupt at the w-th wait, then a recovery build
+FamIntr(K, CH) ==
+  UNION { {Scn(gr, <<BX(Roots(gr), j, 1, [intr |-> w, tok |-> tok]), Build(Roots(gr), 2, 1), Build(Roots(gr), 2, 1)>>) :
+              j \in {2, 3}, w \in {1, 2, 3}, tok \in {0 - 1, 1}} :
+          gr \in UNION {GraphsS(sh, {"plain", "restat", "two", "gcc", "depfile", "rsp"}, K) : sh \in {"chain2", "fanin", "fanout", "mixed", "group", "wide4", "implicit"}} }
+  \cup
+  UNION { {Scn(gr, <<Build(Roots(gr), 2, 1), c, BX(Roots(gr), 2, 1, [intr |-> w]), Build(Roots(gr), 2, 1), Build(Roots(gr), 2, 1)>>) :
+              w \in {1, 2}, c \in Pick(CH, ChangesET(gr))} :
+          gr \in UNION {GraphsS(sh, {"plain", "restat", "two", "gcc", "depfile", "rsp"}, K) : sh \in {"chain2", "fanin", "fanout", "mixed", "group", "implicit"}} }
+
+CrashPoints == {"start", "fin-extractdeps", "fin-restat", "fin-planfinished", "fin-rspremove", "fin-logappend", "fin-depsappend",
+                "buildlog-record", "depslog-record", "depslog-id"}
+CrashGraphs(K) == UNION {GraphsS(sh, {"plain", "restat", "two", "gcc", "depfile", "rsp", "restatgcc"}, K) : sh \in {"chain2", "fanin", "fanout", "mixed", "group", "implicit", "oonly"}}
+FamCrash(K, CH) ==
+  UNION { {Scn(gr, <<BX(Roots(gr), j, 1, [crash |-> [point |-> pt, n |-> n]]), Build(Roots(gr), 2, 1), Build(Roots(gr), 2, 1)>>) :
+              j \in {1, 2}, pt \in CrashPoints, n \in {1, 2}} : gr \in CrashGraphs(K) }
+  \cup
+  UNION { {Scn(gr, <<Build(Roots(gr), 2, 1), c, BX(Roots(gr), 2, 1, [crash |-> [point |-> pt, n |-> n]]), Build(Roots(gr), 2, 1), Build(Roots(gr), 2, 1)>>) :
+              pt \in CrashPoints, n \in {1, 2}, c \in Pick(CH, ChangesET(gr))} : gr \in CrashGraphs(K) }
+
 ParK == IF "K" \in DOMAIN IOEnv THEN atoi(IOEnv.K) ELSE 3
 ParCH == IF "CH" \in DOMAIN IOEnv THEN atoi(IOEnv.CH) ELSE 3
 
@@ -230,6 +277,10 @@ Family(name) ==
     [] name = "sched" -> FamSched(ParK, ParCH)
     [] name = "fail" -> FamFail(ParK, ParCH)
     [] name = "rand" -> FamRand(ParK, ParCH)
+    [] name = "pools" -> FamPools(ParK, ParCH)
+    [] name = "jobs" -> FamJobs(ParK, ParCH)
+    [] name = "intr" -> FamIntr(ParK, ParCH)
+    [] name = "crash" -> FamCrash(ParK, ParCH)
 
 Fam == IF "FAM" \in DOMAIN IOEnv THEN IOEnv.FAM ELSE "sched"
 Out == IF "OUT" \in DOMAIN IOEnv THEN IOEnv.OUT ELSE "scenarios.ndjson"
